@@ -53,7 +53,7 @@ pub fn run(ctx: &Ctx, ev: &mut Ev) {
         alpha.push(0xD800); alpha.push(0xDC00);
         let sp = EncSpace {
             encs: encoder_families(), alpha, maxlen: if small { 2 } else { 3 }, src16s: vec![false, true], vec_sinks: vec![false, true], repls: vec![false, true],
-            cap_offsets: vec![vec![0], vec![1], vec![2], vec![3], vec![4], vec![6], vec![0, 9]], last_seps: vec![false, true], stride: if small { 31 } else if th { 2 } else { 1 }, fills: vec![0x5A]
+            cap_offsets: vec![vec![0], vec![1], vec![2], vec![3], vec![4], vec![6], vec![0, 9]], last_seps: vec![false, true], stride: if small { 31 } else if th { 2 } else { 1 }, fills: vec![0x5A], per_encoder: true
         };
         ev.note(format!("enum: {}", sp.describe()));
         let mut rf: Option<Ref> = None;
@@ -70,7 +70,7 @@ pub fn run(ctx: &Ctx, ev: &mut Ev) {
         // all 40 encodings on length <= 2 texts
         let mut alpha2: Vec<u32> = SCALARS_SMALL.to_vec(); alpha2.push(0xDBFF); alpha2.push(0x10FFFF);
         let sp2 = EncSpace { encs: ALL.iter().copied().collect(), alpha: alpha2, maxlen: 2, src16s: vec![true, false], vec_sinks: vec![false], repls: vec![false, true],
-            cap_offsets: vec![vec![0], vec![1], vec![2], vec![5]], last_seps: vec![false, true], stride: if small { 7 } else { 1 }, fills: vec![0x5A] };
+            cap_offsets: vec![vec![0], vec![1], vec![2], vec![5]], last_seps: vec![false, true], stride: if small { 7 } else { 1 }, fills: vec![0x5A], per_encoder: true };
         ev.note(format!("enum2: {}", sp2.describe()));
         enum_enc(ctx, ev, &sp2, |case, new_group, ev| {
             if new_group { rf = Some(reference(&mut drv, ev, case)); }
